@@ -256,6 +256,19 @@ void ApiRun::op_cont_destroy(const Op &o) {
     MCont gone = *find_cont(c.model, uid);
     if (is_block) { for (size_t i = 0; i < c.model.blocks.size(); ++i) if (c.model.blocks[i].uid == uid) { c.model.blocks.erase(c.model.blocks.begin() + (long) i); break; } }
     else { for (size_t i = 0; i < par->frames.size(); ++i) if (par->frames[i].uid == uid) { par->frames.erase(par->frames.begin() + (long) i); break; } }
+    // "destroying a container removes everything inside it": handles still held on save frames nested in the destroyed container, and
+    // on loops of those frames, no longer refer to anything -- a query through them must not succeed (and show the old content)
+    {
+        std::set<uint64_t> inner; std::function<void(const MCont &)> rec = [&](const MCont &x) { for (auto &f : x.frames) { inner.insert(f.uid); rec(f); } }; rec(gone);
+        for (size_t i = 0; i < conts.size(); ++i) if (conts[i].h && conts[i].cif == ci && inner.count(conts[i].uid)) {
+            cif_loop_tp **ls = NULL; int r = cif_container_get_all_loops(conts[i].h, &ls); ++g_stats.events; g_stats.inc("api.probe_handle_into_destroyed_container");
+            if (r == CIF_OK) { size_t n = 0; if (ls) { for (cif_loop_tp **q = ls; *q; ++q) { cif_loop_free(*q); ++n; } lib_free(ls); } violate(cfg.content_clause, "destroy:nested_frame_survives", strprintf("after cif_container_destroy of its parent, a handle on a nested save frame still works: cif_container_get_all_loops returns CIF_OK with %zu loop(s)", n)); }
+        }
+        for (size_t k = 0; k < loops.size(); ++k) if (loops[k].h && loops[k].cif == ci && inner.count(loops[k].cont_uid)) {
+            UChar **names = NULL; int r = cif_loop_get_names(loops[k].h, &names); ++g_stats.events;
+            if (r == CIF_OK) { if (names) { for (UChar **q = names; *q; ++q) lib_free(*q); lib_free(names); } violate(cfg.content_clause, "destroy:nested_loop_survives", "after cif_container_destroy of an enclosing container, a handle on a loop of a nested save frame still works (cif_loop_get_names returns CIF_OK)"); }
+        }
+    }
     retire_subtree(ci, gone, -1);
     after_mutation(ci, false);
 }
